@@ -157,9 +157,17 @@ func (t *UnicastTCPTransport) SetPersistency(persistency Persistency) bool {
 }
 
 func (t *UnicastTCPTransport) GetSendQueueSize() uint64 {
+	// An outgoing face (faces/create) is in the face table, and packets are sent on it, before
+	// its first connection attempt has succeeded - for a permanent face as long as the peer
+	// is unreachable. There is no socket then and nothing is queued (sendFrame drops).
+	// running is set after the connection (see runReceive).
+	if !t.running.Load() || t.conn == nil {
+		return 0
+	}
 	rawConn, err := t.conn.SyscallConn()
 	if err != nil {
 		core.LogWarn(t, "Unable to get raw connection to get socket length: ", err)
+		return 0
 	}
 	return impl.SyscallGetSocketSendQueueSize(rawConn)
 }
